@@ -426,6 +426,14 @@ def main(pid, fn):
         code = fn(ctx)
     except Inconclusive as e:
         print("INCONCLUSIVE property=%s: %s" % (pid, e))
+        if ctx.violations:
+            # stages that did complete observed the real code breaking the property: those verdicts stand, although a later
+            # stage could not be carried out (a change that breaks the property may well break a driver too)
+            ctx.notes.append("a later stage was inconclusive: %s" % str(e)[:500])
+            sys.exit(ctx.finish("model_checking", {
+                "traces_validated_against_impl": len(ctx.violations), "evaluations": len(ctx.violations), "distinct_nontrivial": len(ctx.violations),
+                "rule": "PARTIAL RUN: only the stages completed before an inconclusive stage are reported; each violation was observed on the real code",
+                "samples": [v["what"][:300] for v in ctx.violations[:3]], "exhaustive": False}))
         ctx.cleanup()
         sys.exit(2)
     except subprocess.TimeoutExpired as e:
